@@ -47,6 +47,7 @@ def parseKind (s : String) : Except String SKind :=
   | "array" => pure .array | "multi" => pure .multi | "dict" => pure .dict
   | "sparse" => pure .sparse
   | "schema" => pure .dict      -- a declarative `class F(Schema)` is a Dict
+  | "sparse_schema" => pure .sparse
   | _ => throw s!"bad kind {s}"
 
 partial def parseSchema (j : Json) : Except String Schema := do
@@ -220,10 +221,12 @@ inductive SeqSpec
   | setslice (s : Slice) (as : List ArgSpec)
   | remove (a : ArgSpec) | contains (a : ArgSpec) | index (a : ArgSpec) | count (a : ArgSpec)
   | direct (o : SeqOp)
+  | observe            -- the harness only READS navigation properties here: no call on the model
 
 inductive MapSpec
   | setitem (k : Tree.Str) (a : ArgSpec)
   | updateItems (items : List (Tree.Str × ArgSpec))
+  | observe
   | direct (o : MapOp)
 
 def parseSeqOp (j : Json) : Except String SeqSpec := do
@@ -241,6 +244,7 @@ def parseSeqOp (j : Json) : Except String SeqSpec := do
   | "pop" => return .direct (.pop (← optOf int (fldD j "i" .null)))
   | "remove" => return .remove (← a)
   | "reverse" => return .direct .reverse
+  | "observe" => return .observe
   | "clear" => return .direct .clear
   | "imul" => return .direct (.imul (← ifld j "n"))
   | "sort" =>
@@ -273,6 +277,7 @@ def parseMapOp (j : Json) : Except String MapSpec := do
   | "delitem" => return .direct (.delitem (← cfld j "k"))
   | "pop" => return .direct (.pop (← cfld j "k"))
   | "popitem" => return .direct .popitem
+  | "observe" => return .observe
   | "clear" => return .direct .clear
   | "update" =>
     let pos ← match fld j "pos" with
@@ -324,6 +329,7 @@ def materialise (s : St) (o : OpSpec) : Except String (Node × Op × St) := do
   if isSeqKind target.kind then
     let some sp := o.s | throw "nokindop"
     match sp with
+    | .observe => throw "OBSERVE"
     | .direct op => return (target, .seq op, s)
     | .append a => let (x, s1) ← mkArg s target none a; return (target, .seq (.append x), s1)
     | .extend as => let (xs, s1) ← mkArgs s target none as; return (target, .seq (.extend xs), s1)
@@ -338,6 +344,7 @@ def materialise (s : St) (o : OpSpec) : Except String (Node × Op × St) := do
   else
     let some mp := o.m | throw "nokindop"
     match mp with
+    | .observe => throw "OBSERVE"
     | .direct op => return (target, .map op, s)
     | .setitem k a => let (x, s1) ← mkArg s target (some k) a; return (target, .map (.setitem k x), s1)
     | .updateItems items => let (xs, s1) ← mkItemArgs s target items; return (target, .map (.updateArgs xs), s1)
@@ -370,6 +377,7 @@ structure StepObs where
 def execOp (s : St) (o : OpSpec) : StepObs :=
   match materialise s o with
   | .error "UNSUPPORTED" => ⟨{ s with unsupported := true }, Json.str "unsupported", none, []⟩
+  | .error "OBSERVE" => ⟨s, Json.str "ok", none, []⟩
   | .error reason => ⟨s, obj [("skip", Json.str reason)], none, []⟩
   | .ok (target, op, s1) =>
     match stepAt s1.root target.id op s1.next with
